@@ -227,6 +227,13 @@ def random_hist(rng):
     doms = {"dA": [rng.uniform(-5, 5), rng.uniform(6, 50)], "dB": [rng.uniform(-1e-3, 1e-3), rng.uniform(2e-3, 1e-2)],
             "dC": [rng.uniform(1e6, 2e6), rng.uniform(-1e6, 0)]}
     rngs = {"rA": [0, rng.choice([100, 360, 0.5])], "rB": [rng.uniform(10, 500), rng.uniform(-500, 5)]}
+    if rng.random() < 0.35:
+        # successive settings that differ in ONE small integer end point (values a change detector may confuse: -1 and -2 hash
+        # alike in CPython, 0 and -0.0 / 1 and True / 1 and 1.0 compare equal)
+        a, b = rng.sample([-2, -1, 0, 1, 2, 5, -5], 2)
+        c = rng.choice([v for v in (-2, -1, 0, 1, 2, 3) if v not in (a, b)])
+        doms = {"dA": [a, b], "dB": [c, b], "dC": [a, float(c)]}
+        rngs = {"rA": [a, b], "rB": [c, b]}
     n = 1
     h = []
     for _ in range(rng.randint(3, 15)):
